@@ -240,9 +240,16 @@ func equals(t types.Type, x, y value) bool {
 	case *value:
 		return x == y.(*value)
 	case chan value:
-		return x == y.(chan value)
+		// only the nil channel has this representation
+		if yc, ok := y.(chan value); ok {
+			return x == yc
+		}
+		return x == nil && y.(*mchan) == nil
 	case *mchan:
-		return x == y.(*mchan)
+		if yc, ok := y.(*mchan); ok {
+			return x == yc
+		}
+		return x == nil && y.(chan value) == nil
 	case *native:
 		return x == y.(*native)
 	case structure:
